@@ -1,4 +1,5 @@
 PROP = dict(
+    thorough_seeds=48,
     module="M3d.Props.C20",
     corr=dict(quick=600, thorough=5000),
     gen=["Kernels"],
